@@ -986,6 +986,60 @@ twofile_special_case(long idx, void *ctx)
     mc_count("twofile_special_cases", 1);
 }
 
+/* a nested open of a path that is already open read-only asks for write access and the operating system refuses to open the
+   file for writing: the call fails, and the ids issued before it behave as if it had never been made */
+static void
+failed_nested_open_case(long idx, void *ctx)
+{
+    (void)ctx;
+    int mode2 = (int)(idx % 2), withaid = (int)(idx / 2 % 2), twice = (int)(idx / 4 % 2);
+    int cfg[4] = {-5, mode2, withaid, twice};
+    mc_set_config(cfg, 4, "family=failed nested open");
+    mc_set_case("file open read-only%s; Hopen(%s) of the same path fails in fopen%s; then release", withaid ? " with an access element attached" : "", mode2 ? "DFACC_RDWR" : "DFACC_WRITE",
+                twice ? " (tried twice)" : "");
+    if (prologue())
+        return;
+    int32 f = Hopen(PATH, DFACC_READ, 0), aid = withaid ? Hstartread(f, 1000, 1) : FAIL;
+    if (f == FAIL || (withaid && aid == FAIL)) {
+        mc_harness_error("cannot open the file read-only");
+        return;
+    }
+    for (int k = 0; k <= twice; k++) {
+        vfs_fault_set(0, 0, 1, 1u << VK_FOPEN);
+        int32 f2 = Hopen(PATH, mode2 ? DFACC_RDWR : DFACC_WRITE, 0);
+        vfs_fault_clear();
+        if (f2 != FAIL) {
+            mc_violation("nested-open:accepted-without-write-access", "Hopen for writing succeeded although the file could not be opened for writing");
+            Hclose(f2);
+        }
+    }
+    uint8 b[8] = {0};
+    if (withaid) {
+        /* the file cannot be closed out from under the attached element */
+        if (Hclose(f) != FAIL) {
+            mc_violation("close-with-attached-element-accepted@after-failed-nested-open", "after a failed nested open, Hclose of the only file id succeeded although an access element is attached");
+            return;
+        }
+        if (Hread(aid, 3, b) != 3 || b[0] != 1 || b[2] != 3)
+            mc_violation("valid-id-unusable@after-failed-nested-open", "the access element attached before the failed nested open no longer reads its data");
+        if (Hendaccess(aid) == FAIL)
+            mc_violation("teardown:release-failed:aid", "Hendaccess failed after the failed nested open");
+    }
+    if (Hgetelement(f, 1000, 1, b) != 3)
+        mc_violation("valid-id-unusable@after-failed-nested-open", "the file id issued before the failed nested open no longer works");
+    if (Hclose(f) == FAIL)
+        mc_violation("teardown:release-failed:file", "Hclose of the only file id failed after the failed nested open");
+    /* nothing is left behind: the path can be created afresh, and a pristine workload behaves as in a fresh process */
+    int32 g = Hopen(PATH, DFACC_CREATE, 4);
+    if (g == FAIL)
+        mc_violation("state-retained-after-release:create-refused", "after every id has been released, Hopen(DFACC_CREATE) of the path is refused (the file is still held open)");
+    else
+        Hclose(g);
+    if (mini_workload() != g_pristine)
+        mc_violation("state-retained-after-release:workload-differs", "after a failed nested open and full release, the canonical workload behaves differently from a pristine process");
+    mc_count("failed_nested_open_cases", 1);
+}
+
 int
 C13_main(const char *tier, const char *replay)
 {
@@ -1011,6 +1065,10 @@ C13_main(const char *tier, const char *replay)
             twofile_special_case(cfg[1] + 6 * cfg[2] + 12 * cfg[3], NULL);
             return 0;
         }
+        if (cfg[0] == -5) {
+            failed_nested_open_case(cfg[1] + 2 * cfg[2] + 4 * cfg[3], NULL);
+            return 0;
+        }
         mc_set_config(cfg, 1, "family=%s", FAMN[cfg[0]]);
         printf("replay C13: family %s, %d ops\n", FAMN[cfg[0]], nops);
         if (setup(cfg[0]))
@@ -1030,6 +1088,9 @@ C13_main(const char *tier, const char *replay)
     mc_round_end();
     mc_round_begin("two open files with a special element under the same tag/ref, ids alive together");
     mc_foreach(24, twofile_special_case, NULL, 1, 120);
+    mc_round_end();
+    mc_round_begin("a nested open for writing that the operating system refuses");
+    mc_foreach(8, failed_nested_open_case, NULL, 1, 120);
     mc_round_end();
     for (int depth = thorough ? 4 : dmax; depth <= dmax; depth++) {
         char label[48];
